@@ -452,7 +452,88 @@ struct PolySet {
   std::string desc;
   int maxDepth = 0;
   bool degen = false;
+  std::string regime = "general";  // general | eps-zero | thin-feature
+  double lfs = 0;                    // smallest distance between contour edges that share no vertex
 };
+
+
+// Rectilinear faces on an integer grid: an outer rectangle, disjoint rectangular
+// holes at integer positions with gaps >= 1, optionally an island one cell
+// inside a hole and a hole one cell inside that island, plus extra vertices at
+// integer points along edges. Many vertices share x or y coordinates exactly
+// (the library's epsilon bands around equal coordinates are exercised); the
+// set is exactly valid because all gaps are >= 1 grid unit.
+static void gridFace(vh::Rng& r, Built& B, vec2 origin, double unit) {
+  int W = r.range(4, 16), H = r.range(4, 12);
+  struct R4 { int x0, y0, x1, y1; };
+  auto ring = [&](R4 q, bool hole, int depth) {
+    Ring g;
+    g.hole = hole;
+    g.depth = depth;
+    g.kind = "grid";
+    std::vector<vec2> c4 = {vec2(q.x0, q.y0), vec2(q.x1, q.y0), vec2(q.x1, q.y1), vec2(q.x0, q.y1)};
+    bool dense = r.chance(0.5);
+    for (int i = 0; i < 4; i++) {
+      vec2 a = c4[i], b = c4[(i + 1) % 4];
+      g.p.push_back(a);
+      int len = (int)std::lround(std::abs(b.x - a.x) + std::abs(b.y - a.y));
+      vec2 d = (b - a) / (double)len;
+      for (int k = 1; k < len; k++)
+        if (dense && r.chance(0.5)) g.p.push_back(a + d * (double)k);  // exact lattice point on the edge
+    }
+    if (hole) std::reverse(g.p.begin(), g.p.end());
+    for (auto& v : g.p) v = origin + unit * v;
+    B.rings.push_back(g);
+    B.maxDepth = std::max(B.maxDepth, depth);
+  };
+  ring({0, 0, W, H}, false, 0);
+  std::vector<R4> holes;
+  int tries = r.range(0, 12);
+  for (int t = 0; t < tries; t++) {
+    int x0 = r.range(1, W - 2), y0 = r.range(1, H - 2);
+    int x1 = r.range(x0 + 1, std::min(W - 1, x0 + 6)), y1 = r.range(y0 + 1, std::min(H - 1, y0 + 6));
+    bool ok = true;
+    for (auto& q : holes)
+      if (!(x1 + 1 <= q.x0 || q.x1 + 1 <= x0 || y1 + 1 <= q.y0 || q.y1 + 1 <= y0)) ok = false;
+    if (!ok) continue;
+    holes.push_back({x0, y0, x1, y1});
+    ring({x0, y0, x1, y1}, true, 1);
+    R4 q = {x0, y0, x1, y1};
+    for (int depth = 2; depth <= 4; depth++) {
+      if (q.x1 - q.x0 < 3 || q.y1 - q.y0 < 3 || !r.chance(0.5)) break;
+      q = {q.x0 + 1, q.y0 + 1, q.x1 - 1, q.y1 - 1};
+      ring(q, depth % 2 == 1, depth);
+    }
+  }
+  B.minClear = std::min(B.minClear, unit);
+}
+
+static double segSegDistance(vec2 a, vec2 b, vec2 c, vec2 d) {
+  return std::min({distPointSeg(a, c, d), distPointSeg(b, c, d), distPointSeg(c, a, b), distPointSeg(d, a, b)});
+}
+// smallest distance between two contour edges that share no vertex (the set is
+// already known to be exactly valid, so the segments do not cross)
+static double localFeatureSize(const std::vector<Ring>& rings) {
+  struct E { vec2 a, b; int ring, i, n; double lox, hix; };
+  std::vector<E> es;
+  for (size_t r = 0; r < rings.size(); r++) {
+    const auto& p = rings[r].p;
+    for (size_t i = 0; i < p.size(); i++) {
+      vec2 a = p[i], b = p[(i + 1) % p.size()];
+      es.push_back({a, b, (int)r, (int)i, (int)p.size(), std::min(a.x, b.x), std::max(a.x, b.x)});
+    }
+  }
+  std::sort(es.begin(), es.end(), [](const E& x, const E& y) { return x.lox < y.lox; });
+  double best = 1e300;
+  for (size_t x = 0; x < es.size(); x++)
+    for (size_t y = x + 1; y < es.size(); y++) {
+      if (es[y].lox - es[x].hix >= best) break;  // sorted by lox: no later edge can be closer in x
+      const E &p = es[x], &q = es[y];
+      if (p.ring == q.ring && (p.i == q.i || (p.i + 1) % p.n == q.i || (q.i + 1) % q.n == p.i)) continue;
+      best = std::min(best, segSegDistance(p.a, p.b, q.a, q.b));
+    }
+  return best;
+}
 
 // Builds an epsilon-valid set. Returns false (case skipped, never decides) if
 // the requested epsilon cannot be guaranteed to be far below the feature size.
@@ -461,9 +542,14 @@ static bool buildValid(vh::Rng& r, long maxVerts, PolySet& P, std::string& skipW
   int faces = r.chance(0.75) ? 1 : r.range(2, 3);
   int maxDepth = r.chance(0.5) ? 0 : r.range(1, 4);
   bool wantConvex = r.chance(0.12);
+  bool wantGrid = !wantConvex && r.chance(0.12);
   for (int f = 0; f < faces; f++) {
     vec2 ctr(3.0 * f, r.uni(-0.3, 0.3));  // discs of radius 1 centred 3 apart: disjoint
-    if (wantConvex) {
+    if (wantGrid) {
+      // a W x H grid face with unit 1/16 fits the box [3f-1, 3f] x [-1, 0], inside the disc of radius 1.5 about (3f, 0)... the
+      // faces only need to be mutually disjoint: boxes [3f-1, 3f+0] x [-1,-0.25] for different f are 2 apart in x
+      gridFace(r, B, vec2(3.0 * f - 1.0, -1.0), 1.0 / 16);
+    } else if (wantConvex) {
       Contour c = makeShape(r, 5, r.range(3, 40));
       double br = 0;
       for (auto& v : c.p) br = std::max(br, la::length(v - c.interior));
@@ -520,6 +606,8 @@ static bool buildValid(vh::Rng& r, long maxVerts, PolySet& P, std::string& skipW
       return false;
     }
   }
+  P.lfs = localFeatureSize(B.rings);
+  P.regime = epsIn == 0 ? "eps-zero" : (P.lfs < 4 * epsEff ? "thin-feature" : "general");
   // perturbations that keep the set within epsilon of the exactly valid one
   int degen = r.range(0, 3);  // 0 none, 1 collinear, 2 duplicates, 3 both
   P.degen = degen != 0 && !wantConvex;
@@ -767,6 +855,8 @@ static void validCase(vh::Ctx& c) {
   if (P.degen) c.count("sets_with_collinear_or_duplicate_vertices");
   if (P.epsIn == 0) c.count("sets_with_epsilon_zero");
   if (P.epsIn > 0) c.count("sets_with_explicit_epsilon");
+  c.count("sets_regime_" + P.regime);
+  if (P.desc.find("grid") != std::string::npos) c.count("sets_on_integer_grid");
   bool cvx = strictlyConvexSingle(P);
   if (cvx) c.count("sets_all_strictly_convex");
   std::vector<ivec3> res[2];
@@ -789,8 +879,17 @@ static void validCase(vh::Ctx& c) {
     c.count("triangles_between_half_epsilon_and_epsilon_not_decided", v.inBand);
     if (!v.why.empty()) {
       dumpText(P.polys, P.epsIn);
-      c.violation("valid:" + v.why + ":ac" + std::to_string(ac) + (P.h ? ":holes" : ":noholes"),
+      // Key = regime first. Outside the general regime one key per regime (the
+      // symptom is in the detail); allowConvex=true failing after allowConvex=false
+      // passed on the same input means the convex fast path was wrongly taken.
+      const std::string epsc = P.epsIn < 0 ? "eps-default" : P.epsIn == 0 ? "eps-zero" : "eps-explicit";
+      std::string key;
+      if (P.regime != "general") key = "valid:" + P.regime + ":oracle-violated";
+      else if (ac == 1) key = "valid:allowConvex-fast-path-wrong:" + epsc + (P.degen ? ":dup-or-collinear" : ":plain");
+      else key = "valid:" + v.why + (P.h ? ":holes:" : ":noholes:") + epsc;
+      c.violation(key,
                   vh::J().s("why", v.why).s("info", v.info).s("api", which ? "TriangulateIdx" : "Triangulate").bo("allowConvex", ac == 1)
+                      .s("regime", P.regime).d("smallest_distance_between_nonadjacent_edges", P.lfs)
                       .s("shapes", P.desc).i("V", P.V).i("h", P.h).i("o", P.o).d("epsilon_in", P.epsIn).d("epsilon_eff", P.epsEff)
                       .raw("polys", jpolys(P.polys)).raw("labels", which ? vh::jarr(labels, 8000) : "\"identity\"").raw("tris", jtris(tris)).str());
       return;
@@ -1169,8 +1268,10 @@ static void reuseCase(vh::Ctx& c) {
         c.violation("reuse:halfedge-pairing:valid", vh::J().s("info", pp).s("sequence", log).raw("polys_x_y_idx", jpolysIdx(polys)).str());
         return;
       }
-      Verdict v = checkTriangulation(P, P.idx, a.Triangles());
+      Verdict v;
+      if (P.regime == "general" && !ac) v = checkTriangulation(P, P.idx, a.Triangles());  // other regimes / fast path: stage valid
       if (!v.why.empty()) {
+        dumpText(P.polys, P.epsIn);
         c.violation("reuse:" + v.why + (P.h ? ":holes" : ":noholes"),
                     vh::J().s("why", v.why).s("info", v.info).s("sequence", log).d("epsilon_in", P.epsIn).raw("polys", jpolys(P.polys))
                         .raw("tris", jtris(a.Triangles())).str());
